@@ -1,2 +1,36 @@
-/- placeholder while the C02 driver is being updated to the current models of the other properties (see *.lean.pending) -/
-def main : IO Unit := IO.println "C02: driver being updated"
+/- C02 line-protocol driver: prints `model <TAB> spec` for each case line.  The operations are split
+   by clause of the property like the harness (harness/c02.cpp):
+     Containers.lean   vec.* set.* bits.*   histories, `<x>.new` starts one
+     Strings.lean      str.* sv.*           inplace_string histories, string_view
+     Ranges.lean       alg.* span.*
+     Text.lean         cc.* cs.* num.* chr.*
+   Every model call is a call of the owning property's model; the spec column is its spec. -/
+import Tetl.Proto
+import Tetl.C02.Containers
+import Tetl.C02.Strings
+import Tetl.C02.Ranges
+import Tetl.C02.Text
+namespace Tetl.C02.Driver
+open Tetl Tetl.Proto
+
+structure St where
+  c : CSt := {}
+  s : SSt := {}
+
+def step (st : St) (l : Line) : St × String :=
+  match stepContainers st.c l with
+  | some (c, o) => ({ st with c := c }, o)
+  | none =>
+  match stepStrings st.s l with
+  | some (s, o) => ({ st with s := s }, o)
+  | none =>
+    match stepRanges l with
+    | some o => (st, o)
+    | none =>
+      match stepText l with
+      | some o => (st, o)
+      | none => (st, "bad-op\tbad-op")
+
+end Tetl.C02.Driver
+
+def main : IO Unit := Tetl.Proto.runDriver ({} : Tetl.C02.Driver.St) Tetl.C02.Driver.step
